@@ -195,15 +195,17 @@ Fixpoint wf_sb (n : snode) : bool :=
   | SJoinHalf x y => bounded_s y && (wf_sb x && wf_sb y)
   end.
 
-Inductive accode : Type := KPlus | KCount | KOther (f : val -> val -> val).
+(* KPlusMono / KCount are closures the API call annotates `monotone = manual_proof!(..)` *)
+Inductive accode : Type := KPlus | KPlusMono | KCount | KOther (f : val -> val -> val).
 Definition acc_interp (c : accode) : val -> val -> val :=
-  match c with KPlus => c_plus | KCount => c_count | KOther f => f end.
-Definition acc_comm_b (c : accode) : bool := match c with KPlus | KCount => true | KOther _ => false end.
+  match c with KPlus | KPlusMono => c_plus | KCount => c_count | KOther f => f end.
+Definition acc_comm_b (c : accode) : bool := match c with KPlus | KPlusMono | KCount => true | KOther _ => false end.
+Definition acc_mono_b (c : accode) : bool := match c with KPlusMono | KCount => true | _ => false end.
 
 Inductive ranode : Type :=
 | RFold (init : val) (c : accode) (x : snode)
 | RReduce (f : val -> val -> val) (x : snode)
-| RFoldKeyed (init : val) (acc : val -> val -> val) (x : snode)
+| RFoldKeyed (init : val) (c : accode) (x : snode)
 | RReduceKeyed (f : val -> val -> val) (x : snode)
 | RMap (f : val -> val) (a : ranode).
 
@@ -211,7 +213,7 @@ Fixpoint interp_a (r : ranode) : anode :=
   match r with
   | RFold init c x => AFold init (acc_interp c) x
   | RReduce f x => AReduce f x
-  | RFoldKeyed init acc x => AFoldKeyed init acc x
+  | RFoldKeyed init c x => AFoldKeyed init (acc_interp c) x
   | RReduceKeyed f x => AReduceKeyed f x
   | RMap f a => AMap f (interp_a a)
   end.
@@ -228,3 +230,35 @@ Inductive rflow : Type := RS (n : snode) | RA (r : ranode).
 Definition rinterp (f : rflow) : flow := match f with RS n => FS n | RA r => FA (interp_a r) end.
 Definition wf_rb (f : rflow) : bool := match f with RS n => wf_sb n | RA r => wf_rab r end.
 Definition chk_wf (f : rflow) : N := if wf_rb f then 0%N else 1%N.
+
+(* ---- the bound judgement of singletons / keyed singletons (SingletonBound / KeyedSingletonBound):
+   which API keeps and which erases a monotonicity promise.
+     fold with a `monotone` proof (count)            -> Monotonic singleton
+     keyed fold with a `monotone` proof (value_counts) -> MonotonicValue
+     keyed fold without                               -> MonotonicKeys   (KeyedStreamToNonMonotone)
+     keyed reduce, fold without proof, reduce         -> Unbounded       (no promise)
+     map / map_with_key (any closure)                 -> B::EraseMonotonic:
+                                                         MonotonicValue -> MonotonicKeys,
+                                                         Monotonic singleton -> Unbounded *)
+Inductive abnd := BUnb | BMonoKeys | BMonoValue | BMonoSingle.
+Definition erase_mono (b : abnd) : abnd :=
+  match b with BMonoValue => BMonoKeys | BMonoSingle => BUnb | _ => b end.
+Fixpoint abound (r : ranode) : abnd :=
+  match r with
+  | RFold _ c _ => if acc_mono_b c then BMonoSingle else BUnb
+  | RReduce _ _ => BUnb
+  | RFoldKeyed _ c _ => if acc_mono_b c then BMonoValue else BMonoKeys
+  | RReduceKeyed _ _ => BUnb
+  | RMap _ a => erase_mono (abound a)
+  end.
+Definition abnd_eqb (a b : abnd) : bool :=
+  match a, b with
+  | BUnb, BUnb | BMonoKeys, BMonoKeys | BMonoValue, BMonoValue | BMonoSingle, BMonoSingle => true
+  | _, _ => false
+  end.
+(* the model's bound of every translated aggregate node against the bound the builder recorded *)
+Definition chk_abounds (l : list (ranode * abnd)) : N :=
+  if forallb (fun e => abnd_eqb (abound (fst e)) (snd e)) l then 0%N else 1%N.
+(* the promise a recorded bound makes about consecutive snapshots *)
+Definition promise_of (b : abnd) : mono_kind :=
+  match b with BUnb => NoPromise | BMonoKeys => MonoKeys | BMonoValue => MonoValue | BMonoSingle => MonoSingle end.
